@@ -127,6 +127,10 @@ class DependenciesResolver:
                 diff = set(parts) - set(re.split("[_.]", cmp.source))
 
                 add = "_".join(part for part in parts if part in diff)
+                if not add:
+                    # Same words in another order, e.g. a.b and b.a
+                    add = "_".join(parts)
+
                 cur.alias = f"{add}:{cur.name}"
 
     def get_class_module(self, qname: str) -> str:
